@@ -263,6 +263,65 @@ def timing_cases(ctx, alpha, gens, maxlines, emit=True, workers=14, simulate=Non
     return cases
 
 
+def rand_timing_module(ctx, nlines, salt=0):
+    """Randomised alphabet for TimingLines (see rand_lines_module): times from a small pool (so that groups form), beat
+    lengths of every sign and magnitude (inside the velocity / scroll clamps only values that divide 100000, the model's
+    exactness rule), meters, banks, custom indices, volumes and flag bytes from wide ranges, 2..8 fields."""
+    import random
+    rnd = random.Random(ctx.seed * 6007 + 5 + salt * 15485863)
+    pool = [0, 1] + [2 * rnd.randint(-5000, 5000) for _ in range(4)]
+    exact_neg = [-25, -40, -50, -80, -100, -125, -200, -250, -400, -500, -800, -1000, -1250, -2000, -2500, -4000, -5000, -10000]
+    lines = []
+    for _ in range(nlines):
+        unin = rnd.random() < 0.45
+        if unin:
+            # (a negative beat length on a timing line still sets a velocity: same exactness rule)
+            bl = rnd.choice([500, 250, 400, rnd.randint(1, 70000), rnd.choice(exact_neg), -rnd.randint(1, 9), -rnd.randint(10001, 2000000), 0, 6, 60000, 60001, 5])
+        else:
+            bl = rnd.choice([rnd.choice(exact_neg), rnd.choice(exact_neg), -rnd.randint(1, 9), -rnd.randint(10001, 2000000), 500, rnd.randint(1, 100000)])
+        f = ['!.bl = %d' % bl, '!.unin = %s' % ("TRUE" if unin else "FALSE"), '!.nf = %d' % rnd.choice([2, 3, 4, 5, 6, 7, 8, 8, 8, 8])]
+        sig = rnd.choice([4, 3, 7, rnd.randint(1, 40), 0, -2])
+        f.append('!.sigc = "%s"' % ("zero" if sig == 0 else "num"))
+        f.append('!.sig = %d' % (4 if sig == 0 else sig))
+        f.append('!.bank = %d' % rnd.choice([0, 1, 2, 3, rnd.randint(-4, 9)]))
+        f.append('!.custom = %d' % rnd.choice([0, 0, 1, 2, rnd.randint(-5, 300)]))
+        f.append('!.vol = %d' % rnd.choice([100, 60, 0, rnd.randint(-50, 250)]))
+        f.append('!.flags = %d' % rnd.choice([0, 1, 8, 9, rnd.randint(0, 255), rnd.randint(-300, 70000)]))
+        if not unin and rnd.random() < 0.08:
+            f.append('!.blc = "nan"')
+        lines.append("[Base(%d) EXCEPT %s]" % (rnd.choice(pool), ", ".join(f)))
+    text = ("----------------------------- MODULE RandTiming -----------------------------\n"
+            "(* generated by bin/plans.py (rand_timing_module) from VERIF_SEED = %d - do not edit.  A randomised alphabet for\n"
+            "   TimingLines: the model is the oracle, the values it is asked about change with the seed. *)\n"
+            "EXTENDS TimingLines\n\nRandTAlpha == <<\n    %s >>\n"
+            "=============================================================================\n") % (ctx.seed, ",\n    ".join(lines))
+    path = os.path.join(SPEC, "RandTiming.tla")
+    old = open(path).read() if os.path.exists(path) else None
+    if old != text:
+        with open(path, "w") as fh:
+            fh.write(text)
+
+
+def timing_rand_cases(ctx, nlines, maxlines, gens="GensModes", salt=0):
+    rand_timing_module(ctx, nlines, salt)
+    sany(ctx, "RandTiming")
+    name = "MC_RandTiming_%d_%d" % (nlines, maxlines)
+    cases = os.path.join(ctx.work, name + ".ndjson")
+    body = cases + ".body"
+    cfg = dict(spec="Spec", invariants=TIMING_INV,
+               constants=dict(Alpha="<-RandTAlpha", Gens="<-" + gens, MaxLines=str(maxlines), MinLines="0", Emit="TRUE"))
+    r = tlc(ctx, "RandTiming", name, cfg, workers=14, timeout=3000, cases_file=body)
+    if r["alpha"] is None:
+        raise ToolError("RandTiming did not print its alphabet")
+    with open(cases, "w") as f:
+        f.write(json.dumps({"alpha": r["alpha"]}) + "\n")
+        with open(body) as b:
+            for ln in b:
+                f.write(ln)
+    os.remove(body)
+    return cases
+
+
 def check_C12(ctx):
     thorough = ctx.tier == "thorough"
     for m in ("ControlPointOps", "TimingLines", "Trace_TimingLines"):
@@ -305,6 +364,12 @@ def check_C12(ctx):
         summ = harness(ctx, ["timing", "order"], cases_file=ocases, name="timing-order", timeout=3600)
         report_mismatches(ctx, summ, "timing lines decoded with [General] values other than those in effect when the line is read")
     # the invariant Shape (strictly increasing, clamps) on real output far outside the model's time alphabet
+    # randomised alphabet (values drawn with the seed from wide ranges; the model is the oracle): all sequences of two lines
+    for salt in ([4, 3, 2, 1, 0] if thorough else [0]):
+        f = timing_rand_cases(ctx, 60, 2, salt=salt)
+        summ = harness(ctx, ["timing", "replay", "--spellings", "2"], cases_file=f, name="timing-rand", timeout=3600)
+        report_mismatches(ctx, summ, "timing-point decoding differs from the TimingLines specification (randomised alphabet %d)" % salt)
+        os.remove(f)
     # ... and the whole data flow between sections (SectionFlow.tla), with the negative control that the FINAL [General]
     # values are not what a timing line sees
     flow_cases(ctx, 3, expect_violation=True)
